@@ -48,5 +48,7 @@ fn main() {
     let mut ctx = Ctx::new(prop, name, tier, seed, shard, nshards);
     ctx.param = param;
     f(&mut ctx);
+    // scratch files of the C19 monitors (DDDMP / DOT exports through the C API)
+    let _ = std::fs::remove_dir_all(format!("/tmp/ag19-{}", std::process::id()));
     ctx.finish();
 }
